@@ -30,6 +30,10 @@ def combos(tier):
                 firsts = sorted(set([0, 1, 3, 7, bf - n, max(0, bf - n - 1), (bf - n) // 2]) & set(range(0, bf - n + 1)))
             for f in firsts:
                 out.append((bf, f, n))
+        # wide channels in a 64-bit field: offset + width exceeds the 32 bits of the channel's own integer type
+        for n in ((26, 30, 32) if bf == 64 else ()):
+            for f in (0, 3, 7, bf - n):
+                out.append((bf, f, n))
         for n in ((11, 16) if bf >= 16 else ()):
             if n <= bf:
                 for f in sorted(set([0, bf - n, (bf - n) // 2])):
